@@ -417,8 +417,9 @@ fn pool_content(r: &mut Rng, file: usize) -> String {
 fn gen_state(r: &mut Rng, i: u64) -> Vec<String> {
     let mut v = vec![format!("case\t{}", i)];
     let mut init = "init".to_string();
+    let keep = r.below(3); // at least one source file at start-up (see Model/LspState.lean)
     for f in 0..3 {
-        if r.chance(1, 6) {
+        if f != keep && r.chance(1, 5) {
             init.push_str("\t~");
         } else {
             init.push_str(&format!("\t{}", hex(pool_content(r, f).as_bytes())));
@@ -613,17 +614,39 @@ fn run_state(f: &[&str]) -> String {
                         eff.push_str(&format!(" {}={}", file, if v == "~" { "~".to_string() } else { hex(v.as_bytes()) }));
                     }
                 }
-                let mut kinds: Vec<String> = vec![];
-                for ((k, a), (_, b)) in inc.iter().zip(fr.iter()) {
-                    if a != b {
-                        let kind = k.split(':').next().unwrap().to_string();
-                        if !kinds.contains(&kind) {
-                            kinds.push(kind);
+                let diff_kinds = |a: &Vec<(String, String)>, b: &Vec<(String, String)>| -> Vec<String> {
+                    let mut kinds: Vec<String> = vec![];
+                    for ((k, x), (_, y)) in a.iter().zip(b.iter()) {
+                        if x != y {
+                            let kind = k.split(':').next().unwrap().to_string();
+                            if !kinds.contains(&kind) {
+                                kinds.push(kind);
+                            }
                         }
                     }
-                }
-                if inc.len() != fr.len() && kinds.is_empty() {
-                    kinds.push("shape".to_string());
+                    if a.len() != b.len() && kinds.is_empty() {
+                        kinds.push("shape".to_string());
+                    }
+                    kinds
+                };
+                let mut kinds = diff_kinds(&inc, &fr);
+                let mut nondet = false;
+                if !kinds.is_empty() && !kinds.contains(&"eff".to_string()) {
+                    // Two servers started on identical contents can disagree with each other (which
+                    // of two equal declarations is reported depends on hash-map order).  If the
+                    // running server agrees with *some* fresh server, that is what happened.
+                    for _ in 0..4 {
+                        let mut other = new_lsp(&st.proj);
+                        for (file, text) in &st.open {
+                            other.compiler_state.db.insert_open_file(st.proj.rel(file), text.clone());
+                        }
+                        let o = observe(&other, &st.proj);
+                        std::mem::forget(other);
+                        if diff_kinds(&inc, &o).is_empty() {
+                            nondet = true;
+                            break;
+                        }
+                    }
                 }
                 if std::env::var("HX_DEBUG").is_ok() {
                     for ((k, a), (_, b)) in inc.iter().zip(fr.iter()) {
@@ -632,7 +655,18 @@ fn run_state(f: &[&str]) -> String {
                         }
                     }
                 }
-                format!("{}\t{}", eff, if kinds.is_empty() { "agree".to_string() } else { format!("differ:{}", kinds.join(",")) })
+                format!(
+                    "{}\t{}",
+                    eff,
+                    if kinds.is_empty() {
+                        "agree".to_string()
+                    } else if nondet {
+                        format!("nondet:{}", kinds.join(","))
+                    } else {
+                        kinds.sort();
+                        format!("differ:{}", kinds.join(","))
+                    }
+                )
             }
             _ => "bad-op".to_string(),
         }
